@@ -1006,4 +1006,92 @@ theorem lock_discipline_record :
       [("__init__", "-", "fresh"), ("copy", "self.file_like", "(if hasFh then src else fresh)"),
        ("__setstate__", "-", "fresh"), ("reshape", "self.file_like", "fresh")] := by
   decide
+/-! ### byte layer: the length hypothesis discharged on the driver's test file -/
+
+theorem foldl_mul_prod (l : List Nat) : ∀ a, l.foldl (· * ·) a = a * l.prod := by
+  induction l with
+  | nil => intro a; simp
+  | cons x r ih => intro a; simp only [List.foldl_cons, List.prod_cons, ih]; rw [Nat.mul_assoc]
+
+theorem body_length (isz : Nat) (f : Nat → Nat → Nat) : ∀ n,
+    ((List.range n).flatMap (fun q => (List.range isz).map (fun b => f q b))).length = n * isz := by
+  intro n
+  induction n with
+  | zero => simp
+  | succ n ih =>
+    rw [List.range_succ, List.flatMap_append, List.length_append, ih]
+    simp [Nat.succ_mul]
+
+theorem mkFile_length (c : Cfg) (hlen : c.off + c.isz * c.shape.prod ≤ c.flen) : (mkFile c).length = c.flen := by
+  unfold mkFile
+  simp only [List.length_append, List.length_map, List.length_range, body_length, foldl_mul_prod, Nat.one_mul]
+  have : c.shape.prod * c.isz = c.isz * c.shape.prod := Nat.mul_comm _ _
+  omega
+
+theorem slice_length (file : List Byte) (o n : Nat) (h : o + n ≤ file.length) : (slice file o n).length = n := by
+  unfold slice
+  simp only [List.length_take, List.length_drop]
+  omega
+
+theorem slice_length_zero (file : List Byte) (o : Nat) : (slice file o 0).length = 0 := by
+  unfold slice; simp
+
+/-- BYTE LAYER, length half (`SReq.OK.hbytes` discharged): on the driver's test file, the bytes a sliced read
+    delivers single-threaded are exactly `∏ read_shape · itemsize` long — every segment lies inside the file
+    (C06 `reads_within_extent`), so no read is short. -/
+theorem hbytes_mkFile (c : Cfg) (h : Nb.C06.Heuristic) (idx : List Nb.C06.IdxItem) (d : Nb.C06.SliceDefs)
+    (hv : ∀ s, Nb.C06.IdxItem.slice s ∈ idx → s.Valid)
+    (hlen : c.off + c.isz * c.shape.prod ≤ c.flen)
+    (hcalc : Nb.C06.calcSlicedefs h idx c.shape c.isz c.off c.order = .ok d) :
+    (segBytes (mkFile c) (natSegs d)).length = d.readShape.foldl (· * ·) 1 * c.isz := by
+  have hw := Nb.C06.reads_within_extent h idx c.shape hv c.order c.isz c.off d hcalc
+  have hfl := mkFile_length c hlen
+  rw [foldl_mul_prod, Nat.one_mul, Nat.mul_comm, ← hw.2]
+  unfold segBytes natSegs
+  rw [List.length_flatten, List.map_map, List.map_map]
+  congr 1
+  apply List.map_congr_left
+  intro sg hsg
+  simp only [Function.comp]
+  by_cases hz : sg.length = 0
+  · rw [hz]; exact slice_length_zero _ _
+  · have := hw.1 sg hsg hz
+    apply slice_length
+    rw [hfl]
+    omega
+
+/-- well-formedness of a sliced request on the driver's test file `mkFile c`; the ONLY byte-layer hypothesis left
+    is `hdec` (that `decodeLE` reads the stored element numbers back from the segment bytes) — the length
+    hypothesis `SReq.OK.hbytes` is now a theorem (`hbytes_mkFile`). -/
+structure SReq.OKd (c : Cfg) (r : SReq) : Prop where
+  hv : ∀ s, Nb.C06.IdxItem.slice s ∈ r.idx → s.Valid
+  hw : isWhole r.idx c.shape = some false
+  hcalc : Nb.C06.calcSlicedefs (Nb.C06.thresholdHeuristic Gen.skipThresh) r.idx c.shape c.isz c.off c.order = .ok r.d
+  hnp : Nb.C06.npIndex r.idx c.shape c.order = .ok (r.sh, r.l)
+  hdec : decodeLE c.isz (segBytes (mkFile c) (natSegs r.d))
+          = (Nb.C06.segElems c.off c.isz r.d.segments).map (fun q => elemVal c.isz q.toNat)
+
+theorem SReq.OKd.toOK (c : Cfg) (r : SReq) (hlen : c.off + c.isz * c.shape.prod ≤ c.flen) (h : r.OKd c) :
+    r.OK c (mkFile c) :=
+  ⟨h.hv, h.hw, h.hcalc, h.hnp, hbytes_mkFile c _ r.idx r.d h.hv hlen h.hcalc, h.hdec⟩
+
+/-- END-TO-END on the driver's test file — PARTIAL, one byte-layer hypothesis fewer than
+    `thread_results_eq_numpy_partial`: the file is the concrete `mkFile c` the driver and the harness use, the
+    length of the bytes read is PROVED (`hbytes_mkFile`, from C06 `reads_within_extent`); what remains assumed is
+    `SReq.OKd.hdec` (decoding the little-endian element bytes). -/
+theorem thread_results_eq_numpy_mkFile_partial (c : Cfg) (L : Nat) (hisz : 0 < c.isz)
+    (hlen : c.off + c.isz * c.shape.prod ≤ c.flen)
+    (reqs : Tid → List SReq) (hok : ∀ u, ∀ r ∈ reqs u, r.OKd c) (nh : Nat) (p0 : Nat → Nat)
+    (sched : List Tid) (t : Tid) :
+    let s0 := State.init (fun u => ((reqs u).map (fun r => plan c ⟨L, false, some r.idx⟩)).flatMap (·.prog)) nh p0
+    ((runS (mkFile c) s0 sched).threads t).prog = [] →
+    results ((reqs t).map (fun r => plan c ⟨L, false, some r.idx⟩)) (readsOf t (trace (mkFile c) s0 sched))
+      = (reqs t).map (fun r => Res.ok r.sh (r.l.map (elemVal c.isz))) :=
+  thread_results_eq_numpy_partial c L (mkFile c) hisz hlen reqs
+    (fun u r hr => (hok u r hr).toOK c r hlen) nh p0 sched t
+
+-- non-vacuity: the example request satisfies `OKd` on `mkFile exCfg`
+example : exReq.OKd exCfg := ⟨exReq_ok.hv, exReq_ok.hw, exReq_ok.hcalc, exReq_ok.hnp, exReq_ok.hdec⟩
+example : exCfg.off + exCfg.isz * exCfg.shape.prod ≤ exCfg.flen := by decide
+
 end Nb.C14
